@@ -30,7 +30,7 @@ def product_files(level, line_mode=None):
         images = [synth.image_spec("HH", None, 3, 2, "IU2"), synth.image_spec("HV", None, 2, 3, "IU2")]
     if line_mode:
         # more lines, whose per-line values are identical / differ by one unit from line to line
-        images = [synth.image_spec(im["pol"], im["scan"], im["lines"] + (3 if not line_mode.startswith("steps") else 20 if line_mode == "steps" else 90), im["pixels"], im["type"]) for im in images]
+        images = [synth.image_spec(im["pol"], im["scan"], im["lines"] + (20 if line_mode.startswith("bumpy") else 3 if not line_mode.startswith("steps") else 20 if line_mode == "steps" else 90), im["pixels"], im["type"]) for im in images]
         for im in images:
             im["line_mode"] = "steps" if line_mode.startswith("steps") else line_mode
     spec = synth.product_spec(level, images=images)
@@ -324,7 +324,7 @@ def plan(tier):
                         cases.append({"level": level, "producer": producer, "fs": fs, "rpc_w": rpc_w, "rpc_r": rpc_r})
     # per-line values that are constant over the image or change very slowly (what a size-optimised index would fold)
     for level in levels:
-        for mode in ("equal", "drift", "steps", "steps-long"):
+        for mode in ("equal", "drift", "steps", "steps-long", "bumpy", "bumpy-const"):
             for producer in ("option", "cli-adjacent", "cli-target"):
                 for fs in ("mcfs", "local"):
                     cases.append({"level": level, "producer": producer, "fs": fs, "rpc_w": 2, "rpc_r": 3, "line_mode": mode})
@@ -344,7 +344,7 @@ def run(res, tier, seed):
     res.rule = (
         "configurations = level {1.1 two ScanSAR images, 1.5 two polarisations} x producer {none, open option, CLI adjacent, CLI into"
         " user-cache dir, option+CLI} x filesystem {mcfs+storage_options, local path, file://, memory://} x rpc_write {1,2,4096} x"
-        " rpc_read {1,3,1024}, plus per-line values {identical on all lines, drifting by one unit per line, piecewise constant over 22..23 and 92..93 lines (flags set and cleared again)} x producer x {mcfs, local};" " 12 configurations in which the image files are rewritten (same bytes, newer modification time) after their caches were made;" " 16 configurations again in an interpreter whose locale encoding is ASCII;" " each configuration = produce caches, uncached open,"
+        " rpc_read {1,3,1024}, plus per-line values {identical on all lines, drifting by one unit per line, piecewise constant over 22..23 and 92..93 lines (flags set and cleared again), ramps / constants over 22..23 lines that two lines miss by one unit} x producer x {mcfs, local};" " 12 configurations in which the image files are rewritten (same bytes, newer modification time) after their caches were made;" " 16 configurations again in an interpreter whose locale encoding is ASCII;" " each configuration = produce caches, uncached open,"
         " cached open, full loads, first loads (all lines / last line) of fresh cached trees, use_cache+create_cache open, poisoned-index opens; states = configurations, transitions = opens executed."
     )
     res.assumptions = ["I/O on memory:// cannot be observed (only tree equality is checked there)", "the adjacent index of a non-local product is produced by the CLI on a local copy and uploaded (documented workflow)"]
